@@ -3,12 +3,12 @@ META = dict(
     rule=('cases = (operation, type, address, value or guest bit pattern, background pattern, form/path); types: bool, 3 char types, short/int/long/long long '
           'and unsigned forms, char16_t, char32_t, enum, float, double, int*, function pointer, long[3], int*[2], struct fields; addresses: offsets 1..63, every '
           'offset of the last 64+size bytes (objects ending on the last byte of the region, PROT_NONE page behind) and a stride through the interior; values: '
-          'boundary lattice incl. values that do not fit the guest type; backgrounds 0x00/0xFF/0xA5; stores from plain/tainted/tainted_volatile sources; loads '
+          'boundary lattice incl. values that do not fit the guest type; backgrounds 0x00/0xFF/0xA5; stores from plain/tainted/tainted_volatile sources (sandbox-to-sandbox copies of scalars, long[3] and int*[2] take their source from a cell whose neighbourhood differs from that of the destination on both sides, so a copy of the wrong length shows); loads '
           'through conversion to tainted, UNSAFE_unverified, copy_and_verify on the pointer, copy_and_verify_range (1 and 2 elements), p[i], p->, copy_and_verify '
           'on the value. Oracle: reference little-endian encoder/decoder over a hand-written lp32 layout; after a store the whole 64 KiB region equals the '
           'background except the object bytes; loads decode exactly those bytes; SIGSEGV on the guard page = violation. non-trivial = object touching the last '
           'byte / first bytes of the region or a value that does not fit.'),
-    assumptions=['little-endian guest; misaligned accesses are exercised because x86 permits them', 'lp32 and wide integer ABIs with 16-bit pointers (pointer/array/struct cases under lp32 only)'],
+    assumptions=['little-endian guest; misaligned accesses are exercised because x86 permits them', 'lp32 and wide integer ABIs with 16-bit pointers; pointer/array/struct cases under lp32 with 16-bit and with 64-bit base-relative pointers'],
 )
 
 
@@ -16,9 +16,12 @@ def run(ctx):
     specs = [('c07_' + k.lower(), 'c07.cpp', dict(opt='-O1', defs=['C07_' + k])) for k in 'ABC']
     # the wide ABI makes the guest object WIDER than the application type: a load with the application width under-reads
     specs += [('c07w_' + k.lower(), 'c07.cpp', dict(opt='-O1', defs=['C07_' + k, 'C07_WIDE'])) for k in 'ABC']
+    # pointer cells, pointer arrays and struct fields again with a pointer-wide (64-bit, base-relative) guest representation
+    specs += [('c07p64_d', 'c07.cpp', dict(opt='-O1', defs=['C07_D', 'C07_P64']))]
     bins = ctx.build_many(specs)
     a = ['--thorough'] if ctx.thorough else []
     for k in 'ABC':
         ctx.run(bins['c07_' + k.lower()], a)
     for k in 'ABC':
         ctx.run(bins['c07w_' + k.lower()], a)
+    ctx.run(bins['c07p64_d'], a)
